@@ -13,6 +13,7 @@ def run(ctx, model):
     logixdrv.run_open(ctx, model, "C05")
     logixdrv.run_reupload(ctx, model, "C05")
     logixdrv.run_reupload_pair(ctx, model, "C05")
+    logixdrv.run_reconnect(ctx, model, "C05")
     from props import kernels
     kernels.run_filter(ctx, model, "C05")
     kernels.run_upload_parsers(ctx, model, "C05")
